@@ -20,6 +20,8 @@ import (
 	"golang.org/x/tools/go/packages"
 	"golang.org/x/tools/go/ssa"
 	"golang.org/x/tools/go/ssa/ssautil"
+
+	"svcheck/internal/normalize"
 )
 
 // Mod is the module path of the system under analysis.
@@ -45,6 +47,9 @@ type World struct {
 
 	bindOnce sync.Once
 	binding  *Binding
+
+	FieldNotes []string          // renamed struct fields recognised by type (fields.go)
+	Norm       *normalize.Result // what the source-level pre-pass did (unknown helpers inlined)
 }
 
 // RepoDir returns the repository directory analysed by this process.
@@ -68,11 +73,22 @@ func Load() (*World, error) {
 	}
 	env := os.Environ()
 	env = append(env, "GOFLAGS=-mod=mod", "GOPROXY=off", "GOSUMDB=off", "GOTOOLCHAIN=local", "GOWORK=off")
+	var norm *normalize.Result
+	if os.Getenv("SVCHECK_NO_NORMALIZE") == "" {
+		norm, err = normalize.Run(abs, env)
+		if err != nil {
+			// the pre-pass never fails a check: fall back to the tree as it is
+			norm = &normalize.Result{Problems: []string{err.Error()}}
+		}
+	}
 	cfg := &packages.Config{
 		Mode:  packages.LoadAllSyntax,
 		Dir:   abs,
 		Env:   env,
 		Tests: false,
+	}
+	if norm != nil && len(norm.Overlay) > 0 {
+		cfg.Overlay = norm.Overlay
 	}
 	pkgs, err := packages.Load(cfg, "./...")
 	if err != nil {
@@ -99,7 +115,7 @@ func Load() (*World, error) {
 	}
 	prog, _ := ssautil.AllPackages(pkgs, ssa.InstantiateGenerics)
 	prog.Build()
-	w := &World{Repo: abs, Fset: prog.Fset, ByPath: by, Prog: prog}
+	w := &World{Repo: abs, Fset: prog.Fset, ByPath: by, Prog: prog, Norm: norm}
 	for _, p := range pkgs {
 		if strings.HasPrefix(p.PkgPath, Mod) {
 			w.Pkgs = append(w.Pkgs, p)
@@ -123,6 +139,7 @@ func Load() (*World, error) {
 		}
 		return a.String() < b.String()
 	})
+	w.FieldNotes = w.buildFieldAliases()
 	for _, fn := range w.ModFns {
 		n := FuncName(fn)
 		if _, dup := w.byName[n]; !dup {
@@ -324,10 +341,7 @@ func FieldOf(fa *ssa.FieldAddr) *types.Var {
 
 // FieldName returns the name of the field addressed by fa ("" if unknown).
 func FieldName(fa *ssa.FieldAddr) string {
-	if f := FieldOf(fa); f != nil {
-		return f.Name()
-	}
-	return ""
+	return CanonField(FieldOf(fa))
 }
 
 // NamedOf returns the named type behind t (through one pointer), or nil.
